@@ -70,6 +70,67 @@ def recv_is_expect(e):
     return e.recv[0] == "someof" or any(x[0] == "someof" for x in walk(e.recv))
 
 
+
+
+# ----------------------------------------------------------------------------- "already over" early returns
+
+def over_flags(v):
+    """Atomic bool cells that mean 'this subscription's output is over': every store of `true` into them happens in the
+    sink-facing talkback's Error/Terminate arms or on a path that itself sends a terminal message (to the sink or upstream)."""
+    if getattr(v, "_over_flags", None) is not None:
+        return v._over_flags
+    cands = {}
+    for b in v.op.bodies:
+        body = v.P.bodies[b]
+        if not body.is_handler():
+            continue
+        role = v.op.roles.get(b)
+        for var in VARIANTS:
+            for p in v.arm(b, var):
+                if p.end == "cut":
+                    continue      # a prefix of longer paths (loop bound): judged on the complete ones
+                sig = send_sig(v, b, var, p)
+                terminal = any(s[1] in ("Error", "Terminate") or (s[1] == "INCOMING" and var in ("Error", "Terminate")) for s in sig)
+                for i, e in ev_effects(p):
+                    if e.kind == "atomic" and e.op == "store" and e.operand is not None and e.operand[0] == "const" and e.operand[3] == 1 \
+                       and v.P.bodies[b].locals and True:
+                        ck = cell_key(e.cell)
+                        good = (role == "DOWN" and var in ("Error", "Terminate")) or terminal
+                        cands[ck] = cands.get(ck, True) and good
+    # stores outside handlers (thunks, tasks) disqualify
+    for b in v.op.bodies:
+        if v.P.bodies[b].is_handler():
+            continue
+        for e in v.all_effects(b):
+            if e.kind == "atomic" and e.op == "store" and e.operand is not None and e.operand[0] == "const" and e.operand[3] == 1:
+                cands[cell_key(e.cell)] = False
+    v._over_flags = {k for k, ok in cands.items() if ok}
+    return v._over_flags
+
+
+def dead_path(v, p):
+    """A path that finds the output already over (an over-flag is seen set) and does nothing at all."""
+    if p.end != "return":
+        return False
+    of = over_flags(v)
+    seen = False
+    for (_, a, _) in guards_before(p, len(p.events)):
+        if a[0] == "bool" and a[1][0] == "aload" and a[2] is True and cell_key(a[1][1]) in of:
+            seen = True
+    if not seen:
+        return False
+    for i, e in ev_effects(p):
+        if e.tracing:
+            continue
+        if effect_visible(v.P, e) and not (e.kind == "atomic" and e.op == "load") and not (e.kind == "cell" and e.op in ("load", "load_full")):
+            return False
+    return True
+
+
+def live(v, paths):
+    return [p for p in paths if not dead_path(v, p)]
+
+
 def lemma_rel_silent(ctx, v, bid, variant, lemma="REL-silent"):
     """No sends and no state writes on any path of the arm."""
     bad = []
@@ -87,7 +148,7 @@ def lemma_rel_one(ctx, v, bid, variant, cls, svariant, pkind, lemma="REL-1:1", w
     """On every returning path of the arm: exactly one send to class `cls`, of variant `svariant`, with payload kind
     `pkind`; and no other send to the classes in only_class (default: the same class)."""
     only = only_class or (cls,)
-    paths = v.arm(bid, variant)
+    paths = live(v, v.arm(bid, variant))
     problems = []
     npaths = 0
     for p in paths:
@@ -1162,7 +1223,7 @@ def lemma_down_relay(ctx, v, d, variant, want_variants, lemma="REL-bcast", what=
         if n == 0:
             probs.append("no relay")
     else:
-        for p in returning(paths):
+        for p in live(v, returning(paths)):
             sig = [s for s in send_sig(v, d, variant, p) if s[0] == "UPTB"]
             for k in tb:
                 # one cell base may hold several member cells (combine: fields)
@@ -1746,7 +1807,7 @@ def lemma_take_admission(ctx, v, h):
     probs = []
     n = 0
     cellk = None
-    for p in returning(v.arm(h, "Data")):
+    for p in live(v, returning(v.arm(h, "Data"))):
         ds = [s for s in send_sig(v, h, "Data", p) if s[0] == "SINK" and s[1] == "Data"]
         if len(ds) > 1:
             probs.append("two data sends on one path")
@@ -1811,7 +1872,7 @@ def transfer_lemmas(ctx, v):
     h = v.by_role("UP")[0]
     d = v.by_role("DOWN")[0]
     fam = v.family
-    paths = returning(v.arm(h, "Data"))
+    paths = live(v, returning(v.arm(h, "Data")))
     if fam == "map":
         probs = []
         for p in paths:
@@ -2138,7 +2199,7 @@ def demand_lemmas(ctx, v):
             lemma_rel_one(ctx, v, d, "Pull", "UPTB", "Pull", "none", what="pull-relayed", only_class=("UPTB", "SINK", "SINKLIST", "UPSRC"))
         # token down: each path of UP.D emits exactly one token (Data down or Pull up), except take past its bound
         probs = []
-        for p in returning(v.arm(h, "Data")):
+        for p in live(v, returning(v.arm(h, "Data"))):
             sig = send_sig(v, h, "Data", p)
             toks = [s for s in sig if (s[0] == "SINK" and s[1] == "Data") or (s[0] == "UPTB" and s[1] == "Pull")]
             if len(toks) != 1:
@@ -2338,10 +2399,12 @@ def merge_lemmas(ctx, v):
         ctx.ob("PL-greet", v.key(h, "Handshake", "PL-greet", "member-greets"), found, "member arm contains the guarded greeting", v.loc(h))
         # data: stateless 1:1 relay
         probs = []
-        for p in returning(v.arm(h, "Data")):
+        for p in live(v, returning(v.arm(h, "Data"))):
             sig = send_sig(v, h, "Data", p)
-            vis = [e for i, e in ev_effects(p) if effect_visible(v.P, e) and not e.tracing and e.kind != "send"]
-            brs = [a for (_, a, _) in guards_before(p, len(p.events))]
+            vis = [e for i, e in ev_effects(p) if effect_visible(v.P, e) and not e.tracing and e.kind != "send"
+                   and not (e.kind == "atomic" and e.op == "load" and cell_key(e.cell) in over_flags(v))]
+            brs = [a for (_, a, _) in guards_before(p, len(p.events))
+                   if not (a[0] == "bool" and a[1][0] == "aload" and cell_key(a[1][1]) in over_flags(v))]
             if [(s[0], s[1], s[2]) for s in sig] != [("SINK", "Data", "in")] or vis or brs:
                 probs.append("Data arm is not the unconditional, stateless relay (sends %s, %d other effects, %d branches)" % ([(s[0], s[1], s[2]) for s in sig], len(vis), len(brs)))
         ctx.ob("REL-1:1", v.key(h, "Data", "REL-1:1", "stateless-relay"), not probs, "every member datum is forwarded once, unconditionally, touching no shared cell" if not probs else probs[0], v.loc(h))
@@ -4074,3 +4137,21 @@ def _take_flag_arms(ctx, v):
             _ord_flag_first(ctx, v, d, var, "end-before-relay")
 for _pid in ("C04", "C07", "C02"):
     _wrap(_pid, _take_flag_arms)
+
+
+# ============================================================================= explanation addenda (lemmas added after the seeded rounds)
+
+_ADD = {
+ "C01": " Added after the seeded rounds: combine's Data / completion and merge's completion to the sink are behind counters whose reaching the bound implies that every member greeted (GRD-once:nothing-before-all-greeted); all state cells are per subscription (SCP-sub premise).",
+ "C02": " Added after the seeded rounds: take's end flag is raised first by both disposal arms; flatten's inner cell must not read 'no inner' while a new inner is being subscribed (ORD:inner-marked-active-at-subscribe) - its first-subscription instance fails on this tree: recorded finding KF-10 (a first, late-greeting inner is invisible to the outer's completion test).",
+ "C03": " Added after the seeded rounds: merge's over-flag is raised first on sink Error, sink Terminate and member Error; every greeting of an upstream is recorded in the cell the talkback reads; all state cells are per subscription.",
+ "C04": " Added after the seeded rounds: over-flag writers (merge), end-flag arms (take), every-greeting-recorded (ORD-store-pub), state-per-subscription premise.",
+ "C05": " Added after the seeded rounds: share's Error arm must evaluate the fan-out loop on every path, unconditionally.",
+ "C07": " Added after the seeded rounds: every cell of the five operators is per subscription; take's talkback raises the end flag first in both disposal arms. Paths that find the output already over and do nothing are not counted.",
+ "C09": " Added after the seeded rounds: every member greeting records its talkback in the cell the sink-facing talkback reads (ORD-store-pub:every-greeting-recorded).",
+ "C11": " Added after the seeded rounds: Pull routing must consult the inner cell first and may drop a Pull only when both cells were seen empty; ORD:inner-marked-active-at-subscribe (switch instance holds; first-subscription instance is the recorded finding KF-10).",
+ "C15": " Added after the seeded rounds: all six cells are per subscription (SCP-sub premise).",
+ "C17": " Added after the seeded rounds: the counters the K-count / K-arith discharges rely on are per subscription (SCP-sub premise).",
+}
+for _k, _t in _ADD.items():
+    REGISTRY[_k]["explanation"] += _t
